@@ -36,10 +36,13 @@ type runVariant struct {
 	prefill bool // the -o file exists already and is longer than the new output
 	inPlace bool // FILE input and -o name the same file
 	devNull bool // standard input is /dev/null instead of a pipe (commands that read nothing, or an empty input)
+	pieces  int  // > 1: standard input arrives in that many pieces with pauses (short reads)
+	outNull bool // standard output is /dev/null (a character device): only success is compared
+	oddName bool // FILE and -o names contain $, ~, blanks and braces
 }
 
 func (v runVariant) String() string {
-	return fmt.Sprintf("procs=%d race=%v debug=%v in=%s out-o=%v existing-file=%v in-place=%v stdin-devnull=%v", v.procs, v.race, v.debug, v.inPath, v.outFile, v.prefill, v.inPlace, v.devNull)
+	return fmt.Sprintf("procs=%d race=%v debug=%v in=%s out-o=%v existing-file=%v in-place=%v stdin-devnull=%v stdin-pieces=%d stdout-devnull=%v odd-file-names=%v", v.procs, v.race, v.debug, v.inPath, v.outFile, v.prefill, v.inPlace, v.devNull, v.pieces, v.outNull, v.oddName)
 }
 
 // runClass executes one variant and returns (success, output bytes, result).
@@ -61,13 +64,21 @@ func runClass(c *core.Ctx, cl detClass, v runVariant) (bool, []byte, *runner.Res
 		opt.Stdin = nil // the runner then leaves stdin connected to /dev/null
 	}
 	var inFile string
+	inName, outName := "c12.in", "c12.out"
+	if v.oddName {
+		inName, outName = "Ke$ha - ${TiK} ~ToK$HOME.in", "A$AP ~ $PATH {x}.out"
+	}
+	opt.StdinPieces = v.pieces
+	if v.outNull {
+		opt.Redirect = ">/dev/null"
+	}
 	if cl.input != nil {
 		switch v.inPath {
 		case "dash":
 			opt.Stdin = cl.input
 			args = append(args, "-")
 		case "file":
-			inFile = c.Scratch.File("c12.in", cl.input)
+			inFile = c.Scratch.File(inName, cl.input)
 			args = append(args, inFile)
 		case "devstdin":
 			// FILE that is a pipe
@@ -81,7 +92,7 @@ func runClass(c *core.Ctx, cl detClass, v runVariant) (bool, []byte, *runner.Res
 	}
 	var outPath string
 	if v.outFile {
-		outPath = c.Scratch.Path("c12.out")
+		outPath = c.Scratch.Path(outName)
 		if v.inPlace && inFile != "" {
 			outPath = inFile
 		} else if v.prefill {
@@ -335,6 +346,30 @@ func checkC12(c *core.Ctx) {
 			v.devNull = true
 			variants = append(variants, v)
 		}
+		if cl.input != nil && len(cl.input) > 8 {
+			for _, n := range []int{2, 5} {
+				v := base
+				v.pieces = n
+				variants = append(variants, v)
+				if cl.reads {
+					v.inPath = "dash"
+					variants = append(variants, v)
+				}
+			}
+		}
+		{
+			v := base
+			v.outNull = true
+			variants = append(variants, v)
+		}
+		if cl.reads && cl.input != nil && cl.writes {
+			v := base
+			v.inPath = "file"
+			v.oddName = true
+			variants = append(variants, v)
+			v.outFile = true
+			variants = append(variants, v)
+		}
 		for k := 0; k < combos; k++ {
 			v := runVariant{procs: []int{0, 1, 2, 4, 8, 16}[r.Intn(6)], race: r.Intn(4) == 0, debug: r.Intn(3) == 0, inPath: "stdin"}
 			if cl.reads && cl.input != nil {
@@ -343,6 +378,10 @@ func checkC12(c *core.Ctx) {
 			if cl.writes {
 				v.outFile = r.Intn(3) == 0
 				v.prefill = v.outFile && r.Intn(2) == 0
+			}
+			v.oddName = r.Intn(4) == 0
+			if (v.inPath == "stdin" || v.inPath == "dash") && cl.input != nil && r.Intn(4) == 0 {
+				v.pieces = 2 + r.Intn(6)
 			}
 			variants = append(variants, v)
 		}
@@ -372,6 +411,10 @@ func checkC12(c *core.Ctx) {
 			if ok != ok0 {
 				c.Violate("class", i, "success:"+cl.name+":"+variantDim(v), fmt.Sprintf("`crd %s`: first run succeeds=%v, run with %s succeeds=%v", strings.Join(cl.args, " "), ok0, v, ok), map[string]any{"first": obs(res0), "other": obs(res)})
 				return
+			}
+			if v.outNull {
+				dims["out"] = true
+				continue
 			}
 			if !bytes.Equal(out, out0) {
 				class := "bytes:" + cl.args[0] + " " + cl.args[min(1, len(cl.args)-1)]
@@ -511,8 +554,14 @@ func variantDim(v runVariant) string {
 	if v.inPath != "stdin" {
 		d = append(d, "in")
 	}
-	if v.outFile {
+	if v.outFile || v.outNull {
 		d = append(d, "out")
+	}
+	if v.pieces > 1 {
+		d = append(d, "pieces")
+	}
+	if v.oddName {
+		d = append(d, "names")
 	}
 	if len(d) == 0 {
 		return "repeat"
